@@ -139,15 +139,29 @@ template<typename A> static std::string listOf(A &a) {
     return r;
 }
 
+// The elements of an initializer_list are const: building an Array from a list must leave the list as it was.  The same
+// list OBJECT is therefore used twice; the second Array (gone before the operation ends, so the net lifetime change of the
+// operation is that of one construction) has to hold the same values as the first.
+static Arr *fromList(std::initializer_list<Elem> il) {
+    Arr *first = new Arr(il);
+    {
+        Arr second(il);
+        bool same = second.size() == first->size();
+        for (size_t i = 0; same && i < second.size(); ++i) same = valueOf(second[i]) == valueOf((*first)[i]);
+        if (!same) reg().fail("INIT_LIST_CONSUMED");
+    }
+    return first;
+}
+
 static Arr *makeInit(const std::vector<long> &v) {
     // initializer_list needs a literal shape; the temporaries die at the end of the full expression
     switch (v.size()) {
         case 0: return new Arr(std::initializer_list<Elem>{});
-        case 1: return new Arr{mkElem(v[0])};
+        case 1: return fromList({mkElem(v[0])});
         case 2: return new Arr{mkElem(v[0]), mkElem(v[1])};
-        case 3: return new Arr{mkElem(v[0]), mkElem(v[1]), mkElem(v[2])};
+        case 3: return fromList({mkElem(v[0]), mkElem(v[1]), mkElem(v[2])});
         case 4: return new Arr{mkElem(v[0]), mkElem(v[1]), mkElem(v[2]), mkElem(v[3])};
-        default: return new Arr{mkElem(v[0]), mkElem(v[1]), mkElem(v[2]), mkElem(v[3]), mkElem(v[4])};
+        default: return fromList({mkElem(v[0]), mkElem(v[1]), mkElem(v[2]), mkElem(v[3]), mkElem(v[4])});
     }
 }
 
